@@ -936,14 +936,31 @@ class Evaluator:
                     outs.append(o)
             else:
                 outs.append(o)
-        # handlers may also be entered by exceptions raised inside uninterpreted calls
-        for h in st.handlers:
-            s2 = state.fork()
-            s2.conds = s2.conds + (("raised-in", self._handler_names(h, func), const(st.lineno)),)
-            self._havoc_assigned(st.body, s2, "try-body", st.lineno)
-            if h.name:
-                s2.env[h.name] = ("caught", self._handler_names(h, func))
-            outs.extend(self.exec_block(h.body, s2, func))
+        # handlers may also be entered by exceptions raised inside uninterpreted calls: the event "one of THESE calls raised one of the
+        # handler's exceptions" is identified by the calls themselves (as evaluated terms), so that two spellings of the same try agree
+        calls = self._uninterpreted_calls(body_outs, state, [n for h in st.handlers for n in self._handler_names(h, func)])
+        if calls:
+            for h in st.handlers:
+                ev_ = ("raised-in", self._handler_names(h, func), calls)
+                s2 = state.fork()
+                s2.conds = s2.conds + (ev_,)
+                self._havoc_assigned(st.body, s2, "try-body", st.lineno)
+                if h.name:
+                    s2.env[h.name] = ("caught", self._handler_names(h, func))
+                outs.extend(self.exec_block(h.body, s2, func))
+            # ... and every outcome reached WITHOUT such an exception says so
+            negs = tuple(("not", ("raised-in", self._handler_names(h, func), calls)) for h in st.handlers)
+            n_spec = sum(1 for _ in st.handlers)
+            marked = []
+            for o in outs:
+                stt = o[0]
+                if any(c[0] == "raised-in" and c[2] == calls for c in stt.conds):
+                    marked.append(o)
+                    continue
+                s3 = stt.fork()
+                s3.conds = s3.conds + negs
+                marked.append((s3,) + tuple(o[1:]))
+            outs = marked
         if st.finalbody:
             new = []
             for stt, status, val, ln in outs:
@@ -954,6 +971,38 @@ class Evaluator:
                         new.append(o2)
             outs = new
         return outs
+
+    PURE_CALLS = {"isinstance", "len", "set", "list", "dict", "tuple", "sorted", "frozenset", "str", "repr", "iter", "bool", "id", "type",
+                  "copyof", "reversed", "enumerate", "zip", "range", "min", "max", "sum", "any", "all", "hash", "print"}
+
+    def _uninterpreted_calls(self, body_outs, state: State, handler_names: list) -> tuple:
+        """The calls evaluated inside a try body that the evaluator did not look into (primitives, externals), as a canonical tuple of terms."""
+        lookup = any(n.split(".")[-1] in ("KeyError", "IndexError", "LookupError", "Exception", "BaseException") for n in handler_names)
+        found: set = set()
+        n0 = len(state.conds)
+
+        def scan(t):
+            for s_ in _subterms(t):
+                if s_[0] == "call" and isinstance(s_[1], str):
+                    nm = s_[1].split(".")[-1]
+                    if nm in self.PURE_CALLS or s_[1].startswith("logger.") or s_[1].startswith("logging."):
+                        continue
+                    found.add(s_)
+                elif s_[0] == "meth" and isinstance(s_[2], str) and s_[2] not in ("get_base", "items", "keys", "values", "copy", "debug", "info", "warning"):
+                    found.add(s_)
+                elif lookup and s_[0] == "index":
+                    found.add(s_)
+
+        for stt, status, val, _ln in body_outs:
+            for c in stt.conds[n0:]:
+                scan(c)
+            for k, v in stt.env.items():
+                if state.env.get(k) is not v and state.env.get(k) != v:
+                    scan(v)
+            if val is not None and isinstance(val, tuple):
+                scan(val)
+        # outermost calls only: a call nested in another call's argument is evaluated before it, but naming the outer ones keeps the event small
+        return tuple(sorted(found, key=repr))
 
     def _handler_names(self, h: ast.ExceptHandler, func: Func) -> tuple:
         if h.type is None:
@@ -1382,6 +1431,8 @@ class Evaluator:
                         return [(state, ("op", sym, l, r))]
                     return self.inline(rf, [l], {}, state, func, line, self_term=r)
             return [(state, ("op", sym, l, r))]
+        if sym == "|" and (self._is_dictlike(l) or self._is_dictlike(r)):
+            return [(state, ("op", sym, l, r))]  # dict union keeps the values: not a set of keys
         if sym in ("-", "|", "&"):
             ls, rs = self.is_setlike(l), self.is_setlike(r)
             numeric = lt in ("int", "float") or rt in ("int", "float")
@@ -2318,10 +2369,29 @@ class Evaluator:
                 cur = cur.func
         return tuple(reversed(steps))
 
+    def _is_dictlike(self, t: Term) -> bool:
+        if t[0] == "dictlit" or (t[0] == "comp" and t[1] == "dict"):
+            return True
+        if t[0] == "op" and t[1] == "|":
+            return self._is_dictlike(t[2]) or self._is_dictlike(t[3])
+        if t[0] == "accum" and t[1] == "effect" and t[3][0] == "setitem":
+            return True
+        if t[0] == "mut" and t[2] and all(e[0] in ("setitem", "delitem") for e in t[2]):
+            return True
+        typ = self.typeof(t)
+        return isinstance(typ, tuple) and typ[0] == "dict"
+
     def _effect_on(self, cur: Term, name: str, args, kwargs) -> Term:
         # functional reading of the common set/list mutators
         if name == "add" and len(args) == 1:
             return self.mk_set("union", cur if cur[0] != "empty" else EMPTY, ("setlit", (args[0],)))
+        if name == "update" and len(args) == 1 and not kwargs and self._is_dictlike(cur):
+            a = args[0]
+            if a[0] == "comp" and a[1] in ("list", "gen", "set") and a[2][0] == "tuplelit" and len(a[2][1]) == 2:
+                # d.update((k, v) for ...)  =  d | {k: v for ...}
+                return ("op", "|", cur, ("comp", "dict", ("kv", a[2][1][0], a[2][1][1]), a[3]))
+            if self._is_dictlike(a):
+                return ("op", "|", cur, a)
         if name == "update" and len(args) >= 1 and not kwargs and (self.is_setlike(cur) or cur[0] in ("empty", "union", "setof", "setlit", "diff", "inter")):
             out = cur
             for a in args:  # s.update(a, b) = s |= a | b
